@@ -114,3 +114,33 @@ def product_cases(draw, max_lines=12, max_pixels=6, max_images=3, levels=("1.1",
         "policy": draw(st.sampled_from(["decoy", "decoy", "blank"])),
         "vseed": draw(st.integers(0, 2**32 - 1)),
     }
+
+
+def in_place_pairs(strategy):
+    """strategy of in-place pair cases {"__pair__": [a, b]}: b is aligned with a so that both
+    products have the same root AND the same file names (same level, product id, polarisations,
+    scans, filesystem kind) while geometry, counts and all field values differ"""
+
+    def align(ab):
+        a, b = ab
+        b = dict(b)
+        b["level"] = a.get("level", b.get("level"))
+        for key in ("fs", "scene_id", "product_id", "naming"):
+            if key in a:
+                b[key] = a[key]
+            else:
+                b.pop(key, None)
+        if "images" in a and "images" in b:
+            images = []
+            for i, ia in enumerate(a["images"]):
+                ib = dict(b["images"][i % len(b["images"])])
+                for key in ("pol", "scan"):
+                    if key in ia:
+                        ib[key] = ia[key]
+                    else:
+                        ib.pop(key, None)
+                images.append(ib)
+            b["images"] = images
+        return {"__pair__": [a, b]}
+
+    return st.tuples(strategy, strategy).map(align)
